@@ -33,6 +33,15 @@ CHECKS = {
     "C15": dict(
         text="Coq theorems over the model of _stream_data_encode/_stream_bytes_get: samples with neither data nor metadata are skipped, no frame iff none remain, the payload is flags 0 + encoded samples; for any row format the encoder's '<B'+format bytes are the channel byte followed by bytes the decoder's '<'+format reads back as the same canonical values with exact size (struct round-trip theorem), same for metadata (native vs '<'); composed with the C04 decode theorems. The per-kind closed-form round trip is proved for the decode side (C04) and tied on the encode side by the differential run (all 18 types, fixed-point grids, channel ids up to 254, user types). Known finding listed in known_findings.json.",
         design="3/C15", technique="Coq proof (struct pack/unpack round-trip for every format) + translator-regenerated constants + differential correspondence"),
+    "C03": dict(
+        text="Coq theorem C03_chunking (refinement): for every list of read chunks (empty reads included) the frames delivered by the model of _read_hdr/_read_frame driven to exhaustion equal fst(scan(concat chunks)) where scan is an independent one-pass specification (skip to next SOF, accept a complete valid frame and continue after it, otherwise advance one byte, stay pending on an incomplete candidate); the loop never runs out of fuel and never raises; per-call lemmas in front of arbitrary future bytes; corollaries: back-to-back valid frames delivered once and in order, a frame after SOF-free noise is not lost. Differential: EVERY composition of small streams (exhaustive), random compositions of long streams with empty reads, real CommHandler._read_frame over a scripted link vs model vs independent scan.",
+        design="3/C03", technique="Coq proof (refinement to a one-pass scan by induction on fuel/measure) + exhaustive small-scope differential correspondence"),
+    "C07": dict(
+        text="Coq theorems over the model of the buffered configuration state machine (setters, channels_write, diff-based single/full request choice, en_sync/div_sync) against an abstract device: invariant preserved by every operation and answer; no operation other than a write touches the device; after any history an acknowledged write leaves device = requested = reported (dividers iff supported); writing again changes nothing; no divider request is ever sent to a device without divider support. Induction over arbitrary op lists, any channel count and initial state. Differential: random histories on the real CommHandler/NxscopeHandler against the reference device, compared after every call.",
+        design="3/C07", technique="Coq proof (invariant by induction over operation histories) + differential correspondence on real handlers"),
+    "C11": dict(
+        text="Coq theorems over the same state machine with a per-request adversary (acknowledge / reject with any code / lose the request / lose the acknowledgement): failed requests leave the reported state where it was; after ANY such history a write that is acknowledged brings device and client to the requested state (C11_converges, by the sync-flag invariant); worked example of the repaired defect F16. Differential: adversarial histories on the real CommHandler under a scaled clock with watchdogs.",
+        design="3/C11", technique="Coq proof (invariant over adversarial histories) + differential correspondence on the real handler"),
 }
 PENDING = {}
 
